@@ -118,10 +118,19 @@ fn seq4() -> R { sequences_with(4, true) }
 // ------------------------------------------------------------------------------------ C05
 
 fn roundtrip() -> R {
-    let base = if rt::thorough() { spec::catalogue(10, true, false, true) } else { spec::catalogue(8, true, false, true) };
-    let obs = if rt::thorough() { spec::catalogue(6, true, true, false) } else { spec::catalogue(5, true, true, false) };
+    let base = if rt::thorough() { spec::catalogue(9, true, false, true) } else { spec::catalogue(7, true, false, true) };
+    let obs = if rt::thorough() { spec::catalogue(5, true, true, false) } else { spec::catalogue(4, true, true, false) };
     let i = choice(base.len() + obs.len());
-    let s = if i < base.len() { &base[i] } else { &obs[i - base.len()] };
+    let s0 = if i < base.len() { &base[i] } else { &obs[i - base.len()] };
+    // every obscuration pattern of one or two positions on top (any action)
+    let mut s = s0.clone();
+    for _ in 0..choice(3) {
+        let paths = spec_paths(&s);
+        let pi = choice(paths.len());
+        let Some(s2) = obscure_at(&s, &paths[pi], choice(3)) else { return Err(rt::Stop::Skip) };
+        s = s2;
+    }
+    let s = &s;
     rt::note(s.show());
     let e = build(s);
     let b = bytes(&e);
@@ -358,7 +367,7 @@ pub fn prop_c05() -> Prop {
         id: "C05",
         scenarios: vec![
             Scenario { name: "roundtrip", f: roundtrip, thorough_only: false,
-                bounds: "every shape of <=8 (quick) / <=10 (thorough) elements with known values + 16 larger shapes + every shape of <=5 (6) elements with elided / encrypted / compressed elements at any position x every digest order: CBOR, UR and untagged routes; identical, same case and digest at every position, same bytes after re-encoding",
+                bounds: "every shape of <=7 (quick) / <=9 (thorough) elements with known values + 16 larger shapes + every shape of <=4 (5) elements with obscured elements, each with 0, 1 or 2 further positions (any) elided / encrypted / compressed x every digest order: CBOR, UR and untagged routes; identical, same case and digest at every position, same bytes after re-encoding",
                 api: &["tagged_cbor", "untagged_cbor", "try_from_cbor_data", "from_untagged_cbor", "ur_string", "from_ur_string", "is_identical_to", "PartialEq"] },
             Scenario { name: "leaf_types", f: roundtrip_leaves, thorough_only: false,
                 bounds: "34 leaf values over every CBOR type (integer widths, negative, floats incl. reducible / inf / nan, text incl. non-ASCII and 300 chars, byte strings incl. 32 bytes, bool, null, arrays, maps, tagged incl. tag 200 inside a leaf, dates) x 4 positions. Catalogue, not solver-quantified",
